@@ -61,6 +61,15 @@ Proof. exact record_faithful_text. Qed.
 Theorem C14_text_spans_ok : forall d, wf_decl d = true -> matcher_spans_ok (text_matcher d).
 Proof. exact text_spans_ok. Qed.
 
+(* open finding C14-nullable-regex-zero-length: the contract is needed — a raw matcher returning the
+   empty span (a regex that can match the empty string) is recorded with zero-length matches *)
+Theorem C14_raw_zero_length_refuted :
+  map (fun x => (sm_off x, sm_len x))
+      (scan_var_direct {| p_match_max_length := 512; p_max_nb_matches := 1000 |} empty_span_matcher [97; 97; 98])
+  = [(0, 0); (1, 0); (2, 0)]
+  /\ ~ matcher_spans_ok empty_span_matcher.
+Proof. exact raw_zero_length_refuted. Qed.
+
 (* the contract is satisfiable: a concrete xor wide declaration meets it *)
 Definition ex_span_d : tdecl :=
   {| t_text := [97;98;99]; t_ascii := false; t_wide := true; t_nocase := false; t_fullword := true;
@@ -126,6 +135,7 @@ Print Assumptions C14_record_fields.
 Print Assumptions C14_record_partial.
 Print Assumptions C14_record_text.
 Print Assumptions C14_text_spans_ok.
+Print Assumptions C14_raw_zero_length_refuted.
 Print Assumptions C14_prefix_raw.
 Print Assumptions C14_prefix_ac_general.
 Print Assumptions C14_prefix_ac.
